@@ -44,7 +44,7 @@ prop(
 
 prop(
     "C17",
-    level_text="Theorems for every value of the quantifier (no bound): for EVERY hash function of the suffix store (the hash is a parameter of the model), for EVERY finite history of Matcher-trait calls on a driver created with any (slice_size, max_slices) — reset, get_next_space, commit_space of any vector, start_matching, skip_matching, in any order that does not panic — the sequences reported for a block tile it, every match is true at its distance in the retained window, distance <= advertised window, <= retained bytes, >= 1, match_len >= MIN_MATCH_LEN (extracted), executing the sequences decoder-style reproduces the block; base-offset / window-size / suffix-store invariants hold in every reachable state; no panic and termination under the documented call order for every hash that stays inside the slot array (proved for the code's hash). The hand-written model is tied to the code by running the real MatchGeneratorDriver (hook constructor, public Matcher trait) and the model on the same operation sequences (exhaustive over 2-3 symbol alphabets on scaled-down windows, random, production size) and comparing every reported sequence, verif_stats and space contents; an implementation-only oracle re-checks the property's own words on the code's output.",
+    level_text="Theorems for every value of the quantifier (no bound): for EVERY hash function of the suffix store (the hash is a parameter of the model), for EVERY finite history of Matcher-trait calls on a driver created with any (slice_size, max_slices) — reset, get_next_space, commit_space of any vector, start_matching, skip_matching, in any order that does not panic — the sequences reported for a block tile it, every match is true at its distance in the retained window, distance <= advertised window, <= retained bytes, >= 1, match_len >= MIN_MATCH_LEN (extracted), executing the sequences decoder-style reproduces the block; base-offset / window-size / suffix-store invariants hold in every reachable state; no panic and termination under the documented call order for every hash that stays inside the slot array (proved for the code's hash); common_prefix_len (8-byte chunks, then bytes) is exactly the maximal common prefix; lifted to the compressor: driven the way FrameCompressor::compress / compress_fastest drive it (Model/EncCoders.lean builtinFrame), from every matcher state that protocol can produce (any history of frames at any level through one compressor), the built-in matcher never panics and the script of a Fastest frame satisfies the encoder model's ValidMatcher for every input (builtin_valid_matcher, builtin_no_fault; discharges the matcher obligation of C02). The hand-written model is tied to the code by running the real MatchGeneratorDriver (hook constructor, public Matcher trait) and the model on the same operation sequences (exhaustive over 2-3 symbol alphabets on scaled-down windows, random, production size) and comparing every reported sequence, verif_stats and space contents; an implementation-only oracle re-checks the property's own words on the code's output.",
     engines=[{"name": "matcher"}],
     modelled="MatchGenerator (next_sequence, add_suffixes_till, skip_matching, add_data, reserve, reset), SuffixStore (get/insert-if-absent/key), MatchGeneratorDriver (pools, store selection, recycling) are hand-written mirrors of match_generator.rs; MIN_MATCH_LEN, SUFFIX_STORE_MIN_CAPACITY, the hash constants, the production constructor arguments and every comparison operator of next_sequence / reserve / commit_space are extracted from the source text on every run, and the shape of the statements the model mirrors (offset formula, slices, base-offset update, eviction, store clearing) is anchored by the extractor",
     assumptions=[
@@ -105,12 +105,12 @@ def c12_spec_lines_are_oracle(chk):
             continue
         for d in rep.get("disagreements", []) or []:
             case = d.get("case", "")
-            if case.startswith("fse spec "):
+            if case.startswith("fse spec ") or case.startswith("fse specprobs "):
                 chk.violations.append({
                     "kind": "implementation-vs-oracle (Spec table)",
                     "engine": "fse",
                     "what": "decoder table built by the real code differs from the table the Spec builds from the same description: impl `%s` / Spec `%s`" % (d.get("impl", "")[:200], d.get("model", "")[:200]),
-                    "replay": case.replace("fse spec ", "fse dec ", 1) + "\n" + case,
+                    "replay": (case.replace("fse specprobs ", "fse fromprobs ", 1) if case.startswith("fse specprobs ") else case.replace("fse spec ", "fse dec ", 1)) + "\n" + case,
                     "signature": "spec_table_mismatch",
                 })
                 break
@@ -131,13 +131,11 @@ prop(
 
 prop(
     "C13",
-    level_text="Kernel-checked theorems about the Lean model of the Huffman coder.  Finite table (kernel evaluation, 26 modules): for every number n = 2..256 of distinct literal values the weight shape redistribute(distribute(n), log2 n + 2) is computed without panic, has n weights >= 1, ascending from 1, Kraft sum 2^m with m <= 11.  General theorems (no bound): Kraft-complete weights give a complete prefix-free code of lengths m+1-w (codes_prefix_free); every table build_from_counts returns for a histogram with 2..256 non-zero entries is such a code of depth <= 11 (compressor_table_valid, compressor_table_kraft); the decoder's rank-index construction yields the RFC's canonical table cell by cell (huf_table_eq_canonical) and every weight list that cannot form a complete code of depth <= 11 is rejected with the named error and never a panic (bad_weights_rejected, spec_rejected_is_rejected, build_table_never_panics); the direct weight description round-trips exactly (weights_roundtrip_direct) and the FSE-compressed one does under the explicit FSE contract discharged by C12 (weights_roundtrip_fse).  Stated at full strength but not proved in Lean: 1-/4-stream round trips and the <128-byte bound on FSE-compressed descriptions (fse_weights_lt_128_partial: the assertion fires iff the FSE encoder returns >= 128 bytes); both are covered by the correspondence run and by implementation-only oracles (round trip through the real decode_literals, libzstd, exhaustive sweep of alphabet size x number of unused symbols: largest payload 69 bytes).",
+    level_text="Kernel-checked theorems about the Lean model of the Huffman coder.  Finite table (kernel evaluation, 26 modules): for every number n = 2..256 of distinct literal values the weight shape redistribute(distribute(n), log2 n + 2) is computed without panic, has n weights >= 1, ascending from 1, Kraft sum 2^m with m <= 11.  General theorems (no bound): Kraft-complete weights give a complete prefix-free code of lengths m+1-w (codes_prefix_free); every table build_from_counts returns for a histogram with 2..256 non-zero entries is canonical, i.e. such a code of depth <= 11 (compressor_table_valid/_canon/_kraft); the decoder's rank-index construction yields the RFC's canonical table cell by cell (huf_table_eq_canonical) and every weight list that cannot form a complete code of depth <= 11 is rejected with the named error and never a panic (bad_weights_rejected, spec_rejected_is_rejected, build_table_never_panics); the direct weight description round-trips exactly (weights_roundtrip_direct) and so does the FSE-compressed one, UNCONDITIONALLY for the real FSE coder with the production parameters (weights_roundtrip_fse: composition of the C12 theorems normalize_valid, enc_table_eq_dec_table, write_read_table, encode_decode_interleaved over the shared BitIO/FSE models); one stream and four streams (split ceil(len/4), jump table) decode to exactly the literals, each stream exactly consumed, with table and treeless, for every canonical table and every literal string the encoder accepts (encode_decode_1stream, encode_decode_4streams, one_stream_exact, literals_roundtrip_compressor).  Partial: fse_weights_lt_128 - proved that the assert!(encoded_len < 128) is the ONLY panic site write_table can reach on a canonical table (fse_weights_lt_128_canon_partial); that the FSE payload is in fact shorter than 128 bytes is covered by the exhaustive sweep alphabet size x number of unused symbols through the real encoder (largest payload 69 bytes).",
     engines=[{"name": "huf"}],
-    modelled="weight-shape generation and depth limiting, code assignment, weight description writer/reader (direct and FSE-compressed; the FSE table of the weights is the Spec's, the FSE encoder a parameter fed with the real bytes), 1-/4-stream coders, decoder table construction incl. the state left behind by failed calls, HuffmanDecoder, decode_literals/decompress_literals are hand-written mirrors; constants and comparison operators come from the source text (Zstd/Gen/Huf.lean)",
+    modelled="weight-shape generation and depth limiting, code assignment, weight description writer/reader (direct and FSE-compressed; the decoder side uses the shared FSE decoder and reversed bit reader models and reports the individual FSETableError variants; the FSE encoder is a parameter that the correspondence feeds with the real bytes and that Model/EncCoders instantiates with the real coder), 1-/4-stream coders, decoder table construction incl. the state left behind by failed calls, HuffmanDecoder, decode_literals/decompress_literals are hand-written mirrors; constants and comparison operators come from the source text (Zstd/Gen/Huf.lean)",
     assumptions=[
-        "the abstract bit writer / reversed bit reader of Zstd.Model.Huf.Bits (bit lists, zero fill past the beginning) is what BitWriter / BitReaderReversed implement for requests of at most 56 bits (tied by the `huf rev` correspondence; to be replaced by the shared BitIO model and its refinement theorem)",
-        "FSE round trip of the weights (encode_interleaved / two-state decoding loop) is the explicit hypothesis FseWeightsContract of weights_roundtrip_fse, to be discharged by C12 (write_read_table, enc_table_eq_dec_table, encode_decode_interleaved)",
-        "the FSE table of compressed weights on the decoder side is Zstd.Spec.Fse.{readDescription, buildTable} with max log 6 / max symbol 255; all FSETableError variants are one error class (to be replaced by the shared FSE decoder model)",
+        "Huffman literal streams are read through the abstract reversed reader of Zstd.Model.Huf.Bits (bit lists, zero fill past the beginning), tied to the real BitReaderReversed by the `huf rev` correspondence; the weights' FSE stream uses the faithful BitIO.BitReaderRev",
     ],
 )
 
